@@ -8,8 +8,10 @@ use glass_easel_stylesheet_compiler::{StyleSheetOptions, StyleSheetTransformer};
 const VALUES: &[&str] = &["0", "-0", "0.0", "+0", "1", "75", "750", "-1.5", ".5", "0.001", "0.00000075", "3e10", "30000000000", "1e-3", "7.5e2"];
 const RATIOS: &[f32] = &[750.0, 10.0, 1.0, 0.5, 0.00001, 1000000.0];
 const CONTEXTS: &[(&str, &str)] = &[("a{width:", "}"), ("a{width:calc(1px + ", ")}"), ("@media (min-width:", "){a{}}"), ("a{--x:", "}"), ("a{margin:0 ", "}"), (":host{top:", "}"),
-    ("@page{margin:", "}"), ("@page :first{margin:0 ", "}"), ("@font-face{width:", "}"), ("@keyframes k{from{width:", "}}"), ("@page{@top-left{width:", "}}"), ("@starting-style{a{width:", "}}"), ("@layer l{a{width:", "}}"), ("a{width:var(--x,", ")}")];
-const BOUND: &str = "15 rpx values x 6 ratios x 14 contexts (declaration, calc, media query, custom property, second value, :host, @page, @font-face, @keyframes, margin box, @starting-style, @layer, var() fallback); 44 other numeric spellings (signed zeros, explicit plus, integers, decimals, exponents, percentages, dimensions incl. An+B and look-alike units) x 11 contexts, re-tokenised: kind, unit, explicit sign, integer-ness and value kept; the JS binding constructor agrees with from_css for 10 ratios x 4 values x 3 option sets";
+    ("@page{margin:", "}"), ("@page :first{margin:0 ", "}"), ("@font-face{width:", "}"), ("@keyframes k{from{width:", "}}"), ("@page{@top-left{width:", "}}"), ("@starting-style{a{width:", "}}"), ("@layer l{a{width:", "}}"), ("a{width:var(--x,", ")}"),
+    // group rules nested in a style rule, with declarations written directly in them
+    ("a{@media (min-width:1px){width:", "}}"), ("a{@supports (x:y){margin:0 ", ";}}"), ("a{color:red;@container (min-width:1px){top:", "}}"), ("a{@layer l{width:", "}}")];
+const BOUND: &str = "15 rpx values x 6 ratios x 18 contexts (declaration, calc, media query, custom property, second value, :host, @page, @font-face, @keyframes, margin box, @starting-style, @layer, var() fallback, declarations inside @media / @supports / @container / @layer nested in a style rule); 44 other numeric spellings (signed zeros, explicit plus, integers, decimals, exponents, percentages, dimensions incl. An+B and look-alike units) x 11 contexts, re-tokenised: kind, unit, explicit sign, integer-ness and value kept; the JS binding constructor agrees with from_css for 10 ratios x 4 values x 3 option sets";
 
 fn transform(css: &str, ratio: f32) -> String {
     let t = StyleSheetTransformer::from_css("p.wxss", css, StyleSheetOptions { rpx_ratio: ratio, ..Default::default() });
